@@ -25,6 +25,7 @@
 package c07
 
 import (
+	"math/bits"
 	"encoding/hex"
 	"encoding/json"
 	"fmt"
@@ -461,6 +462,24 @@ var families = []family{
 			return fmt.Sprintf("(%s*%d).len()", "["+strings.TrimSuffix(rep("1,", w), ",")+"]", t), wantInt(int64(w * t))
 		}
 		return fmt.Sprintf("(%d*%s).len()", t, "["+strings.TrimSuffix(rep("1,", w), ",")+"]"), wantInt(int64(w * t))
+	}},
+	// a repetition count so large that len*count wraps around 2^64 into 0..520: never a (short) array, always an error
+	{name: "repeat-wrap", cap: capLen, what: "len", hi: 1300, hiT: 3000, build: func(n, m int) (string, func(*ds.VMValue) string) {
+		w := uint64(3 + m%6) // elements of the repeated array (3..8: the count then fits an int64)
+		r := uint64(n % 521) // where the wrapped product lands
+		// count = ceil((2^64 + r) / w)
+		q, rem := bits.Div64(1, r, w) // (2^64 + r) / w, r < w*… : hi word 1 < w
+		if rem != 0 {
+			q++
+		}
+		arr := "[" + strings.TrimSuffix(rep("1,", int(w)), ",") + "]"
+		never := func(v *ds.VMValue) string {
+			return fmt.Sprintf("an error: %d elements repeated %d times is not an array of at most 512 elements", w, q)
+		}
+		if m%2 == 0 {
+			return fmt.Sprintf("(%s*%d).len()", arr, q), never
+		}
+		return fmt.Sprintf("x = %d*%s; x", q, arr), never
 	}},
 	{name: "concat", cap: capLen, what: "len", hi: 1300, hiT: 3000, build: func(n, m int) (string, func(*ds.VMValue) string) {
 		if n < 2 {
